@@ -32,7 +32,7 @@ use std::collections::HashMap;
 pub static INFO: PropInfo = PropInfo {
     id: "C12",
     run,
-    rule: "inputs: (a) every expression tree of depth <= 2 over the 10-leaf alphabet {0, 1, -1, 2, 0.5, 2i, pi, %x, %y, m[0]} x 5 functions x 2 prefix x 5 infix operators (1.69 M trees, enumerated completely in both tiers; literals are dyadic so constant folding is exact), (b) random trees up to depth 6 over dyadic literals (real, imaginary, complex, negative), pi, 4 variables, 5 memory cells, (c) random +,-,*,/ trees of depth <= 4 whose leaves come from a pool of only 2-4 atoms so that equal subterms (the precondition of the factoring / cancelling / affine-combination rewrites) are frequent, (d) directed rule shapes: (P1 + b1) +/- (P2 + b2), P1 +/- P2, P1 / P2 and (P1 * P2) with P = x, x*a, a*x in every operand orientation and every summand order. Each tree is simplified with Expression::simplify and into_simplified and both original and result are evaluated with Expression::evaluate under 3 assignments (generic values in 0.3..3, one with complex variables; one random assignment for random trees); constant trees are additionally pushed through Gate::to_unitary and CalibrationIdentifier::matches. distinct = distinct tree; non-trivial = the simplifier changed the tree (a rewrite or folding fired).",
+    rule: "inputs: (a) every expression tree of depth <= 2 over the 10-leaf alphabet {0, 1, -1, 2, 0.5, 2i, pi, %x, %y, m[0]} x 5 functions x 2 prefix x 5 infix operators (1.69 M trees, enumerated completely in both tiers; literals are dyadic so constant folding is exact), (b) random trees up to depth 6 over dyadic literals (real, imaginary, complex, negative), pi, 4 variables, 5 memory cells, (c) random +,-,*,/ trees of depth <= 4 whose leaves come from a pool of only 2-4 atoms so that equal subterms (the precondition of the factoring / cancelling / affine-combination rewrites) are frequent, (d) directed rule shapes: (P1 + b1) +/- (P2 + b2), P1 +/- P2, P1 / P2 and (P1 * P2) with P = x, x*a, a*x in every operand orientation and every summand order. Each tree is simplified with Expression::simplify and into_simplified and both original and result are evaluated with Expression::evaluate under 3 assignments (generic values in 0.3..3, one with complex variables; one random assignment for random trees); constant trees are additionally pushed through Gate::to_unitary and CalibrationIdentifier::matches. Additionally every innermost node that applies one operator directly to literals is simplified and evaluated on its own and must agree with its evaluation (no conditioning filter there: same operation, same exact operands), and a whole tree of that form is asserted without the filter. distinct = distinct tree; non-trivial = the simplifier changed the tree (a rewrite or folding fired).",
     assumptions: &[
         "value preservation is asserted only where the original evaluates to a finite value and, when the two evaluations differ by more than 1e-6*max(1,|a|), the reference evaluator's perturbation filter (rel 1e-11, abs 1e-10, K=16, no intermediate that is non-finite, larger than 1e100 or inside the simplifier's zero band (0,1e-9)) classifies the point as well defined and well conditioned",
         "'never returns pi' is checked at the root of the result only",
@@ -47,6 +47,7 @@ pub static INFO: PropInfo = PropInfo {
         "workload:random-depth6",
         "workload:shared-subterm",
         "workload:rule-shapes",
+        "innermost-constant-operation:checked",
         "points:preserved",
         "result:changed",
         "result:unchanged",
@@ -114,6 +115,18 @@ fn compare_at(tree: &Tree, expr: &Expression, simplified: &Expression, a: &Assig
             return Point::Preserved;
         }
     }
+    // One operator applied directly to literals: both evaluations are the same single operation
+    // on the same exact operands (no rewriting, no folded intermediate whose zero could change
+    // sign), so there is no "other side of a cut" to excuse a difference; the conditioning filter
+    // is not consulted.
+    if single_operation_on_literals(tree) {
+        return Point::Violated(json!({
+            "assignment": a.env.to_json(),
+            "original_value": c_json(orig),
+            "simplified_value": match simp { Ok(s) => c_json(s), Err(e) => json!(format!("{e:?}")) },
+            "class": "one operator on literal operands: constant folding disagrees with evaluation",
+        }));
+    }
     let mut prng = Rng::from_parts(&[seed, 0xC12]);
     match assess(tree, &a.env, &Filter::SIMPLIFY, &mut prng) {
         Verdict::Good { value, .. } => {
@@ -128,6 +141,15 @@ fn compare_at(tree: &Tree, expr: &Expression, simplified: &Expression, a: &Assig
             }))
         }
         v => Point::Inconclusive(v.reason()),
+    }
+}
+
+fn single_operation_on_literals(t: &Tree) -> bool {
+    let lit = |t: &Tree| matches!(t, Tree::Num(..) | Tree::Pi);
+    match t {
+        Tree::Inf(l, _, r) => lit(l) && lit(r),
+        Tree::Fun(_, a) | Tree::Pre(_, a) => lit(a),
+        _ => false,
     }
 }
 
@@ -359,6 +381,46 @@ fn check_tree(ctx: &mut Ctx, tree: &Tree, assignments: &[Assignment], workload: 
         }
     } else {
         ctx.count("result:unchanged");
+    }
+
+    // constant folding of every innermost operation: each node that applies one operator directly
+    // to literals is simplified and evaluated on its own (no assignment needed, no conditioning
+    // involved: same operation, same exact operands)
+    if tree.size() > 3 {
+        let empty_v: HashMap<String, C> = HashMap::new();
+        let empty_m: HashMap<String, Vec<f64>> = HashMap::new();
+        let mut seen_nodes: Vec<String> = Vec::new();
+        for path in tree.paths() {
+            let node = tree.at(&path);
+            if path.is_empty() || !single_operation_on_literals(node) {
+                continue;
+            }
+            let nd = node.describe();
+            if seen_nodes.contains(&nd) {
+                continue;
+            }
+            seen_nodes.push(nd.clone());
+            let ne = node.to_expression();
+            let r = guarded(|| {
+                let o = ne.evaluate(&empty_v, &empty_m);
+                let s = ne.clone().into_simplified().evaluate(&empty_v, &empty_m);
+                (o, s)
+            });
+            if let Ok((Ok(o), s)) = r {
+                if !finite(o) {
+                    continue;
+                }
+                ctx.count("innermost-constant-operation:checked");
+                let same = matches!(s, Ok(v) if close(o, v, TOL));
+                if !same {
+                    ctx.violation(
+                        &format!("constant-folding-disagrees-with-evaluation:{}", node.kind()),
+                        json!({"tree": desc, "node": nd, "evaluate": c_json(o),
+                               "simplified_then_evaluate": match s { Ok(v) => c_json(v), Err(e) => json!(format!("{e:?}")) }}),
+                    );
+                }
+            }
+        }
     }
 
     // value preservation
